@@ -7,6 +7,7 @@ import (
 	"crypto/sha256"
 	"encoding/binary"
 	"fmt"
+	"hash"
 	"math/rand"
 	"os"
 	"strings"
@@ -21,6 +22,10 @@ import (
 
 // chunk is the number of payload bytes the real sender puts in one packet; measured by probeChunk.
 var chunk int
+
+// raceMode: this process is a -race build, where a megabyte costs 10-50 times more; sizes are scaled down so
+// that the code's own 3 s heartbeat deadline is not what ends every connection.
+var raceMode bool
 
 var allTopics = []lib.Topic{0, 1, 2, 3, 4, 5}
 
@@ -62,6 +67,22 @@ func boundarySizes() []int {
 }
 
 func pickSize(rng *rand.Rand, class string) int {
+	if raceMode {
+		switch x := rng.Intn(100); {
+		case class == "boundary" && x < 8:
+			return chunk - 1 + rng.Intn(3) // one or two packets
+		case class == "boundary" && x < 10:
+			return 2*chunk - 1 + rng.Intn(3)
+		case x < 1:
+			return chunk + 1
+		case x < 15:
+			return rng.Intn(2)
+		case x < 90:
+			return 2 + rng.Intn(4000)
+		default:
+			return 4000 + rng.Intn(60_000)
+		}
+	}
 	switch class {
 	case "small":
 		switch x := rng.Intn(100); {
@@ -338,10 +359,30 @@ type rawScript struct {
 	w        *world
 	e        *endpoint // raw side
 	victim   int
-	asm      map[lib.Topic][]byte
-	forbid   string // when set, messages completed from now on must not be delivered (kind of the violation)
+	asm      map[lib.Topic]*refAsm // reference reassembly: running SHA-256 and length per topic
+	forbid   string                // when set, messages completed from now on must not be delivered (kind of the violation)
 	sentPkts int
 	werr     error
+}
+
+type refAsm struct {
+	h hash.Hash
+	n int
+}
+
+func (a *refAsm) add(b []byte) { a.h.Write(b); a.n += len(b) }
+func (a *refAsm) sum() (out [32]byte) {
+	copy(out[:], a.h.Sum(nil))
+	return
+}
+
+func (s *rawScript) ref(t lib.Topic) *refAsm {
+	a := s.asm[t]
+	if a == nil {
+		a = &refAsm{h: sha256.New()}
+		s.asm[t] = a
+	}
+	return a
 }
 
 // fragment returns n fresh decodable bytes that are not, as such, any message.
@@ -352,15 +393,15 @@ func (s *rawScript) fragment(n int) []byte {
 
 // packet sends one protocol packet and keeps the reference reassembly (split at EOF) up to date.
 func (s *rawScript) packet(t lib.Topic, eof bool, b []byte) {
-	s.asm[t] = append(s.asm[t], b...)
+	s.ref(t).add(b)
 	if eof {
 		if t >= 0 && t < nTopics {
-			r := s.w.newRec(s.e.n.idx, s.victim, t, 0, s.sentPkts, len(s.asm[t]), "raw")
+			r := s.w.newRec(s.e.n.idx, s.victim, t, 0, s.sentPkts, s.ref(t).n, "raw")
 			r.Forbid = s.forbid
-			s.w.register(r, s.asm[t])
+			s.w.registerHash(r, s.ref(t).sum(), s.ref(t).n)
 			r.ok.Store(1)
 		}
-		s.asm[t] = nil
+		delete(s.asm, t)
 	}
 	if err := s.e.writePacket(t, eof, b); err != nil && s.werr == nil {
 		s.werr = err
@@ -395,7 +436,7 @@ var hostileKinds = []string{
 }
 
 // caseHostile runs one hostile script against a real node reached through the real handshake.
-func caseHostile(res *results, name, kind string, rng *rand.Rand) {
+func caseHostile(res *results, name, kind string, rng *rand.Rand) (aimedAtObserved bool) {
 	w := newWorld(res, name, "hostile-"+kind, rng.Uint64())
 	w.hostile = true
 	defer w.close()
@@ -409,7 +450,8 @@ func caseHostile(res *results, name, kind string, rng *rand.Rand) {
 	}
 	capacity := 1 << 20
 	frag := []int{0, 1500, 3}[rng.Intn(3)]
-	if strings.HasPrefix(kind, "overlimit") || kind == "at-limit" {
+	heavy := strings.HasPrefix(kind, "overlimit") || kind == "at-limit"
+	if heavy {
 		frag = 0 // 256 MB three bytes at a time only costs time
 	}
 	c, err := w.connect(r, v, connOpts{capacity: capacity, maxRead: frag, modeA: modeRaw, modeB: modePeerSet})
@@ -419,7 +461,7 @@ func caseHostile(res *results, name, kind string, rng *rand.Rand) {
 	}
 	c.a.autoPong.Store(true)
 	go w.rawReader(c.a)
-	s := &rawScript{w: w, e: c.a, victim: v.idx, asm: map[lib.Topic][]byte{}}
+	s := &rawScript{w: w, e: c.a, victim: v.idx, asm: map[lib.Topic]*refAsm{}}
 	t1 := allTopics[rng.Intn(nTopics)]
 	t2 := allTopics[(int(t1)+1+rng.Intn(nTopics-1))%nTopics]
 	stopHonest := make(chan struct{})
@@ -439,7 +481,9 @@ func caseHostile(res *results, name, kind string, rng *rand.Rand) {
 			if rec.ok.Load() != 1 {
 				return // the code dropped the neighbour's connection (logged; loss then permitted)
 			}
-			if i > 300 {
+			if heavy {
+				time.Sleep(20 * time.Millisecond) // the victim has 256 MB to reassemble; do not add to it
+			} else if i > 300 {
 				time.Sleep(time.Millisecond)
 			}
 		}
@@ -549,7 +593,7 @@ func caseHostile(res *results, name, kind string, rng *rand.Rand) {
 		}
 		c2.a.autoPong.Store(true)
 		go w.rawReader(c2.a)
-		s = &rawScript{w: w, e: c2.a, victim: v.idx, asm: map[lib.Topic][]byte{}}
+		s = &rawScript{w: w, e: c2.a, victim: v.idx, asm: map[lib.Topic]*refAsm{}}
 		c = c2
 		expectClose = false // the canary below must arrive whole, not glued to the old partial
 	case "heartbeat-abuse":
@@ -572,8 +616,7 @@ func caseHostile(res *results, name, kind string, rng *rand.Rand) {
 		buf := s.fragment(chunk)
 		sent := 0
 		partial()
-		sent += len(s.asm[t1])
-		s.asm[t1] = append(make([]byte, 0, total+16), s.asm[t1]...)
+		sent += s.ref(t1).n
 		if expectClose {
 			s.forbid = "overlimit-accepted"
 		}
@@ -582,7 +625,7 @@ func caseHostile(res *results, name, kind string, rng *rand.Rand) {
 		for sent < total {
 			n := min(chunk, total-sent)
 			if n == chunk && sent+n < total {
-				s.asm[t1] = append(s.asm[t1], buf...)
+				s.ref(t1).add(buf)
 				if err := c.a.writeFrame(full); err != nil && s.werr == nil {
 					s.werr = err
 				}
@@ -628,7 +671,15 @@ func caseHostile(res *results, name, kind string, rng *rand.Rand) {
 			}
 		}
 	} else if kind != "eofless-then-close" && kind != "eofless-then-cut" {
-		if !waitFor(watchdog, func() bool { return w.isDelivered(canary) }) {
+		rawClosed := func() bool {
+			select {
+			case <-c.a.closed:
+				return true
+			default:
+				return false
+			}
+		}
+		if !waitFor(watchdog, func() bool { return w.isDelivered(canary) || rawClosed() }) || !w.isDelivered(canary) {
 			select {
 			case <-c.a.closed:
 				// closed although everything sent was legal protocol: loss is then permitted, but say so
@@ -651,10 +702,16 @@ func caseHostile(res *results, name, kind string, rng *rand.Rand) {
 	w.evaluate(evalOpts{complete: true, ordered: true})
 	res.eval(1)
 	res.count("hostile_scripts_run", 1)
+	aimedAtObserved = !heavy
 	if e, ok := v.log.peerErr(r.pubHex); ok && strings.Contains(e, "max message size") {
 		res.count("hostile_rejected_by_size_cap", 1)
+		aimedAtObserved = true
+	} else if kind == "at-limit" && w.isDelivered(canary) {
+		aimedAtObserved = true
 	} else if strings.HasPrefix(kind, "overlimit") || strings.HasPrefix(kind, "length-") {
 		res.count("hostile_overlimit_closed_for_another_reason", 1)
+		e, _ := v.log.peerErr(r.pubHex)
+		res.sample(map[string]any{"case": name, "note": "closed before/without the size cap", "reason_logged_by_code": e, "packets_sent": s.sentPkts, "victim_log_tail": v.log.lastLines()})
 	}
 	res.count("hostile_packets_sent", int64(s.sentPkts))
 	if closedSeen {
@@ -662,10 +719,13 @@ func caseHostile(res *results, name, kind string, rng *rand.Rand) {
 	}
 	res.count("heartbeat_pings_seen_by_raw_peer", c.a.pings.Load())
 	res.count("heartbeat_pongs_seen_by_raw_peer", c.a.pongs.Load())
-	res.distinct(fmt.Sprintf("hostile/%s/%d/%d", kind, t1, t2))
+	if aimedAtObserved {
+		res.distinct(fmt.Sprintf("hostile/%s/%d/%d", kind, t1, t2))
+	}
 	if rng.Intn(6) == 0 {
 		res.sample(map[string]any{"case": name, "scenario": w.scenario, "packets_sent": s.sentPkts, "closed_by_victim": closedSeen, "victim_log_tail": v.log.lastLines()})
 	}
+	return aimedAtObserved
 }
 
 func (w *world) lastRec() *sentRec { w.mu.Lock(); defer w.mu.Unlock(); return w.recs[len(w.recs)-1] }
@@ -738,7 +798,7 @@ func caseEarlySend(res *results, name string, rng *rand.Rand, stallLogger bool) 
 			return
 		}
 		// send at once, without waiting for the victim to finish AddPeer
-		s := &rawScript{w: w, e: re, victim: v.idx, asm: map[lib.Topic][]byte{}}
+		s := &rawScript{w: w, e: re, victim: v.idx, asm: map[lib.Topic]*refAsm{}}
 		s.whole(t, 100+rng.Intn(1000))
 		rec = w.lastRec()
 	}()
@@ -775,6 +835,13 @@ var teardownKinds = []string{"p2p-stop", "conn-stop", "link-cut", "replace", "re
 
 func caseTeardown(res *results, name, kind string, rng *rand.Rand, hold time.Duration) {
 	w := newWorld(res, name, "teardown-"+kind, rng.Uint64())
+	t0 := time.Now()
+	dbg := func(s string) {
+		if os.Getenv("VERIF_C18_DEBUG") != "" {
+			fmt.Printf("DEBUG %s %s at %.1fs\n", name, s, time.Since(t0).Seconds())
+		}
+	}
+	defer dbg("closed")
 	defer w.close()
 	a, b := w.addRealNode(), w.addRealNode()
 	mode := modePeerSet
@@ -843,6 +910,7 @@ func caseTeardown(res *results, name, kind string, rng *rand.Rand, hold time.Dur
 				return
 			default:
 			}
+
 			_ = b.p.PeerCount()
 			_ = b.p.Has(a.pub)
 			_, _ = b.p.GetPeerInfo(third.pub)
@@ -851,13 +919,15 @@ func caseTeardown(res *results, name, kind string, rng *rand.Rand, hold time.Dur
 			if i%16 == 0 {
 				_, _, _ = b.p.GetAllInfos()
 			}
-			time.Sleep(200 * time.Microsecond)
+			time.Sleep(time.Millisecond)
 		}
 	}()
+	dbg("connected, senders started")
 	select {
 	case <-fire:
 	case <-time.After(watchdog):
 	}
+	dbg("trigger reached")
 	switch kind {
 	case "p2p-stop":
 		a.p.Stop()
@@ -889,13 +959,16 @@ func caseTeardown(res *results, name, kind string, rng *rand.Rand, hold time.Dur
 		w.conns = append(w.conns, &conn{lk: lk2, a: &endpoint{}, b: &endpoint{}})
 		w.mu.Unlock()
 	}
+	dbg("teardown done")
 	wg.Wait()
+	dbg("senders done")
 	close(stopAPI)
 	apiWG.Wait()
 	// the bystander connection must be complete
 	if !w.fence(c3.a, allTopics) {
 		res.inconclusive("%s: bystander fence outstanding", name)
 	}
+	dbg("fence done")
 	w.settle()
 	w.evaluate(evalOpts{complete: true, ordered: true})
 	res.eval(1)
@@ -1012,4 +1085,93 @@ func caseLimit(res *results, name, which string, rng *rand.Rand) {
 	res.eval(1)
 	res.count("limit_cases", 1)
 	res.distinct("limit/" + which)
+}
+
+// ---------- contention: many goroutines hand multi-packet messages to ONE stream at the same instant ----------
+
+// caseContend aims at the mechanism that keeps the packets of one message contiguous on a topic (Stream.mu in
+// queueSends): payloads and hashes are prepared in advance, all senders are released together and each hands its
+// message over several times in a row, so that the time spent inside queueSends is a large part of the run.
+func caseContend(res *results, name string, rng *rand.Rand) {
+	w := newWorld(res, name, "contend", rng.Uint64())
+	defer w.close()
+	a, b := w.addRealNode(), w.addRealNode()
+	mode := rng.Intn(2)
+	c, err := w.connect(a, b, connOpts{capacity: 4 << 20, modeA: mode, modeB: mode})
+	if err != nil {
+		res.count("cases_skipped_handshake", 1)
+		return
+	}
+	g, k := 12+rng.Intn(13), 4+rng.Intn(3)
+	if raceMode {
+		g, k = 6+rng.Intn(4), 2
+	}
+	topics := []lib.Topic{allTopics[rng.Intn(nTopics)]}
+	topics = append(topics, allTopics[(int(topics[0])+1+rng.Intn(nTopics-1))%nTopics])
+	type prepared struct {
+		topic   lib.Topic
+		payload []byte
+		recs    []*sentRec
+	}
+	path := "direct"
+	if mode == modePeerSet {
+		path = "sendto"
+	}
+	prep := make([]prepared, g)
+	for i := range prep {
+		t := topics[0]
+		if i%3 == 2 {
+			t = topics[1]
+		}
+		size := chunk + 1 + rng.Intn(64) // two packets
+		if i%5 == 4 {
+			size = 2*chunk + 1 + rng.Intn(64) // three
+		}
+		first := w.newRec(a.idx, b.idx, t, i, 0, size, path)
+		p := prepared{topic: t, payload: makePayload(size, first.ID, w.mask), recs: []*sentRec{first}}
+		for s := 1; s < k; s++ {
+			p.recs = append(p.recs, w.newRec(a.idx, b.idx, t, i, s, size, path))
+		}
+		wire := p.payload
+		if mode == modePeerSet {
+			wire, _ = lib.Marshal(&p2p.Packet{Bytes: p.payload})
+		}
+		for _, r := range p.recs {
+			w.register(r, wire) // the same bytes are handed over k times: the multiset counts them
+		}
+		prep[i] = p
+	}
+	var wg sync.WaitGroup
+	start := make(chan struct{})
+	for i := range prep {
+		wg.Add(1)
+		go func(p prepared) {
+			defer wg.Done()
+			<-start
+			for _, r := range p.recs {
+				if mode == modeDirect {
+					if c.a.mc.Send(p.topic, p.payload) {
+						r.ok.Store(1)
+					} else {
+						r.ok.Store(2)
+					}
+				} else {
+					if err := a.p.SendTo(b.pub, p.topic, &p2p.Packet{Bytes: p.payload}); err == nil {
+						r.ok.Store(1)
+					} else {
+						r.ok.Store(2)
+					}
+				}
+			}
+		}(prep[i])
+	}
+	close(start)
+	wg.Wait()
+	w.quiesce([][]*endpoint{{c.a}, {c.b}})
+	w.evaluate(evalOpts{complete: true})
+	res.eval(1)
+	res.count("contend_messages", int64(g*k))
+	if w.unplanned == 0 {
+		res.distinct(fmt.Sprintf("contend/%d/%d/%d/%v", mode, g, k, topics))
+	}
 }
